@@ -31,7 +31,7 @@ class Mon(drivers.Monitor):
 
 
 def run_sel(item, lines, sel):
-    fo = {"fix": {"rule": {r: (["all"] if v == "all" else sorted(v)) for r, v in sel.items()}}}
+    fo = {"fix": {"rule": {r: (["all"] if v == "all" else (list(v) if isinstance(v, (list, tuple)) else sorted(v))) for r, v in sel.items()}}}
     it = dict(item, lines=lines, fix_only=fo)
     it.pop("ops", None)
     mon = Mon(sel)
@@ -67,7 +67,7 @@ def execute(item):
     nsel = 0
 
     def viol(key, detail, sel):
-        r.violations.append({"key": key, "detail": dict(detail, selection={k: (v if v == "all" else sorted(v)) for k, v in list(sel.items())[:4]}), "item": strip})
+        r.violations.append({"key": key, "detail": dict(detail, selection={k: (v if v == "all" else list(v)) for k, v in list(sel.items())[:4]}), "item": strip})
 
     # every rule: all  ==  plain --fix
     sel = {x: "all" for x in allrules}
@@ -98,6 +98,8 @@ def execute(item):
             continue
         ch_all = changed_lines(lines, exa.final_lines)
         sels = [{l} for l in lns] + [{a, b} for a, b in zip(lns, lns[1:])]
+        # the order and multiplicity in which a tool lists the lines must not matter
+        sels += [(b, a) for a, b in zip(lns, lns[1:])][:3] + [(l, l) for l in lns[:2]] + ([tuple(reversed(lns))] if len(lns) > 2 else [])
         free = next((k for k in range(1, len(lines) + 1) if k not in lns), None)
         if free:
             sels.append({free})
@@ -109,9 +111,18 @@ def execute(item):
             r.transitions += ex.transitions
             if ex.outcome != "ok":
                 continue
+            listed_as = "set" if isinstance(s, set) else ("duplicate" if len(set(s)) < len(s) else "descending")
             if mon.bad:
                 viol((mon.bad[0], "rule_lines"), {"rule": mon.bad[1], "more": mon.bad[2:]}, {rid: s})
                 break
+            if not isinstance(s, set):
+                # same lines listed in another order / twice: the result must be that of the plain set
+                ref, _m = run_sel(item, lines, {rid: set(s)})
+                nsel += 1
+                if ref.outcome == "ok" and ref.final_lines != ex.final_lines:
+                    viol(("result_depends_on_order_or_repetition_of_listed_lines", listed_as), {"rule": rid, "lines": list(s)}, {rid: list(s)})
+                    break
+                s = set(s)
             if local and ch_all is not None:
                 ch = changed_lines(lines, ex.final_lines)
                 if ch is None:
@@ -150,7 +161,7 @@ def main(tier):
     return report.finish(
         PROP, tier, "exploration", [m], t0,
         "per seed and style, selections S: every rule 'all'; nothing; (r,'all') for every fixable reporting rule r of the all-phases report; (r,[l]) for every reported line; (r,[l1,l2]) for "
-        "adjacent reported lines; (r,[a line r does not report]); each through the real apply_rules --fix --fix_only with a per-transition monitor (no unlisted rule fixes, a listed rule applies "
+        "adjacent reported lines, the same in descending order and with a line listed twice; (r,[a line r does not report]); each through the real apply_rules --fix --fix_only with a per-transition monitor (no unlisted rule fixes, a listed rule applies "
         "only violations on listed lines); for line-local rules (documented whitespace/indent/alignment/case) the changed lines are within the selection (plus trailing-whitespace-only lines) and "
         "every listed line that (r,'all') changes is changed; non-trivial = seeds with at least one fixable reporting rule",
         ["more than 24 line selections per rule are cut to the first and last 12 (reported in evidence as not exhaustive only if that happened: it does not on S_q)"],
